@@ -31,6 +31,9 @@ ASSUMPTIONS = [
     "user-supplied stack [a, a+S): 'at least that much usable stack' is read as: the ULT runs inside [a, a+S), "
     "its initial rsp is (a+S rounded down to 16) - 8, so at most 15 bytes at the top are lost to ABI alignment",
     "sizes in stack_geom theorems are mathematical integers (no size_t overflow: sizes <= 16 MiB in the quantifier)",
+    "white-box pool driver: lp type MALLOC only, page_size / header_size / header_offset multiples of 8 (struct alignment, as in "
+    "every real configuration: sizes are rounded to 64 or a power of two); mmap'ed pages and the mprotect slow path of "
+    "take_bucket are reached only through the API-level driver",
     "ULT-running driver is built without sanitizers (ASan and fcontext switching do not mix); its own ledger "
     "(malloc/calloc/realloc/posix_memalign/free/mmap/munmap wrapped at link time) checks every free and the balance at finalize",
 ]
@@ -41,10 +44,72 @@ CORPUS = [
     ("f4_partial_bucket", "f4_partial_bucket.c", [[]]),
 ]
 
+_DRIVER = None
+
+
+def private_driver():
+    """The model driver binary is shared with everybody who runs `lake build driver`; relinking removes it for a
+    moment.  Work from a private copy taken once per run (under the lake lock, with retries)."""
+    global _DRIVER
+    if _DRIVER:
+        return _DRIVER
+    import shutil, time
+    d = os.path.join(C.BUILD, "c15")
+    os.makedirs(d, exist_ok=True)
+    dst = os.path.join(d, "driver.%d" % os.getpid())
+    last = None
+    for _ in range(120):
+        try:
+            with C.Lock("lake"):
+                shutil.copy2(C.driver_exe(), dst)
+            rc, out, err = D.run_lines([dst, "mempool"], ["new 1 16 72 0"])
+            if rc == 0 and out and out[0] == "ok":
+                _DRIVER = dst
+                return dst
+            last = "copied driver does not answer (rc %s)" % rc
+        except OSError as ex:
+            last = repr(ex)
+        time.sleep(1)
+    raise RuntimeError("model driver unavailable: %s" % last)
+
+
+def drop_private_driver():
+    global _DRIVER
+    if _DRIVER and os.path.exists(_DRIVER):
+        os.remove(_DRIVER)
+    _DRIVER = None
+
+
+def compare(model, exe, lines):
+    """D.compare against the private driver copy"""
+    rc_c, out_c, err_c = D.run_lines([exe], lines)
+    rc_m, out_m, err_m = D.run_lines([private_driver(), model], lines, 300)
+    if rc_m != 0:
+        return {"kind": "model-driver-failed", "rc": rc_m, "stderr": err_m[-2000:]}
+    if rc_c != 0:
+        return {"kind": "impl-crash", "rc": rc_c, "stderr": err_c[-3000:], "impl_out_tail": out_c[-5:]}
+    d = D.first_diff(out_c, out_m)
+    if d is None:
+        return None
+    return {"kind": "output-differs", "line": d[0], "impl": d[1], "model": d[2]}
+
+
 MEMPOOL_WRAP = "-Wl,--wrap=posix_memalign"
 STACK_WRAP = ("-Wl,--wrap=malloc,--wrap=calloc,--wrap=realloc,--wrap=free,--wrap=posix_memalign,"
               "--wrap=memalign,--wrap=aligned_alloc,--wrap=mmap,--wrap=munmap")
-PAGE_STRUCT = 56   # sizeof(ABTI_mem_pool_page); the harness refuses parameters that do not fit (bad-params on both sides)
+
+
+def _page_struct():
+    """sizeof(ABTI_mem_pool_page) as generated from the current headers (Gen/Consts.lean)"""
+    import re
+    try:
+        m = re.search(r"def sizeofMemPoolPage : Int := (\d+)", open(os.path.join(C.LEAN, "ArgoVerif", "Gen", "Consts.lean")).read())
+        return int(m.group(1))
+    except Exception:
+        return 56
+
+
+PAGE_STRUCT = _page_struct()
 
 
 # ----------------------------------------------------------------------------------------------
@@ -63,7 +128,7 @@ def run_corpus(res):
             except subprocess.TimeoutExpired:
                 rc, out = -999, "timeout"
             if rc != 0:
-                res.violation("corpus program %s %s fails again (exit %d): a repaired defect is back" % (src, " ".join(argv), rc),
+                res.violation("corpus program %s %s fails (exit %d; it is the repro of a repaired defect and must exit 0)" % (src, " ".join(argv), rc),
                               {"corpus": src, "argv": argv, "exit": rc, "output": out[-1500:]})
     res.add_cov(corpus_programs=n)
 
@@ -198,13 +263,13 @@ def t2_mempool(res, tier, broken):
     if tier == "quick" and not broken:
         rounds, nops = 12, 600
     else:
-        rounds, nops = 2000, 500
+        rounds, nops = 2400, 500     # > 10^6 operations
     total = collections.Counter()
     nl = 0
     handovers = 0
 
     def one(r_lines):
-        return D.compare("mempool", exe, r_lines)
+        return compare("mempool", exe, r_lines)
 
     jobs = []
     for r in range(rounds):
@@ -222,8 +287,8 @@ def t2_mempool(res, tier, broken):
                 bad = (lines, d)
     if bad:
         lines, d = bad
-        small = D.ddmin(lines, lambda ls: D.compare("mempool", exe, ls) is not None, keep_prefix=1, budget=300)
-        d2 = D.compare("mempool", exe, small) or d
+        small = D.ddmin(lines, lambda ls: compare("mempool", exe, ls) is not None, keep_prefix=1, budget=300)
+        d2 = compare("mempool", exe, small) or d
         rc, out_c, err = D.run_lines([exe], small)
         if rc == 0:
             why = mempool_oracle(small, out_c)
@@ -360,13 +425,13 @@ def t2_stack(res, tier, broken):
         progs += 1
         if ei == 0:
             res.sample({"stack_ops": lines[:10]})
-        d = D.compare("stackgeom", exe, lines)
+        d = compare("stackgeom", exe, lines)
         if d is None:
             continue
         k = len(env) + 1
-        small = D.ddmin(lines[:-1], lambda ls: D.compare("stackgeom", exe, ls + ["fin"]) is not None,
+        small = D.ddmin(lines[:-1], lambda ls: compare("stackgeom", exe, ls + ["fin"]) is not None,
                         keep_prefix=k, budget=120) + ["fin"]
-        d2 = D.compare("stackgeom", exe, small) or d
+        d2 = compare("stackgeom", exe, small) or d
         rc, out_c, err = D.run_lines([exe], small)
         why = stack_oracle(small, out_c, err)
         if why is None and rc != 0:
@@ -384,13 +449,22 @@ def t2_stack(res, tier, broken):
 
 def run(res, tier, broken):
     run_corpus(res)
-    if res.violations:
-        return
-    t2_mempool(res, tier, broken)
-    t2_stack(res, tier, broken)
+    try:
+        private_driver()
+        t2_mempool(res, tier, broken)
+        t2_stack(res, tier, broken)
+    finally:
+        drop_private_driver()
 
 
 def replay(res, path):
+    try:
+        return _replay(res, path)
+    finally:
+        drop_private_driver()
+
+
+def _replay(res, path):
     rep = json.load(open(path))
     if "corpus" in rep:
         exe = C.cc_harness("corpus_" + rep["corpus"].rsplit(".", 1)[0], [os.path.join(C.VERIF, "corpus", "findings", rep["corpus"])], "plain")
@@ -403,7 +477,7 @@ def replay(res, path):
             exe, model, orc = mempool_exe(), "mempool", lambda ls, o, e: mempool_oracle(ls, o)
         else:
             exe, model, orc = stack_exe(), "stackgeom", stack_oracle
-        d = D.compare(model, exe, rep["ops"])
+        d = compare(model, exe, rep["ops"])
         rc, out_c, err = D.run_lines([exe], rep["ops"])
         print("disagreement:", d)
         print("oracle:", orc(rep["ops"], out_c, err) if rc == 0 else "rc=%d %s" % (rc, err[-600:]))
